@@ -64,7 +64,7 @@ func TestC28(t *testing.T) {
 	var jobs []job
 	for _, c := range combos {
 		for ni, n := range ns {
-			for rep := 0; rep < mon.Pick(3, 200); rep++ {
+			for rep := 0; rep < mon.Pick(3, 1500); rep++ {
 				if !isAEADSuite(c.suite) && ni > 1 {
 					continue
 				}
